@@ -194,7 +194,10 @@ def make_frames(r, n: int, frame_id: str) -> List[FrameGroundTruth]:
                 continue
             b = (tr["p"][0] + tr["v"][0] * sec, tr["p"][1] + tr["v"][1] * sec, tr["p"][2], G.wrap_pi(tr["yaw"] + tr["w"] * sec), 2.0, 4.0, 1.5)
             vel = None if (no_velocity == "all" or (no_velocity == "some" and r.random() < 0.4)) else (tr["v"][0], tr["v"][1], 0.0)
-            o = O.obj3d(*b, uuid=u, t=t + latency, velocity=vel, negate_q=r.random() < 0.4, npts=5)
+            # an instance is the same object in both neighbours by its id, also when its annotated class was revised from one
+            # key frame to the next (car <-> truck)
+            lab_k = ("truck" if k % 2 else "car") if tr.setdefault("relabelled", r.random() < 0.15) else "car"
+            o = O.obj3d(*b, uuid=u, t=t + latency, velocity=vel, negate_q=r.random() < 0.4, npts=5, lab=lab_k)
             if frame_id == "map" and tr.get("spot") is not None:
                 from perception_eval.common.schema import FrameID as _F
 
